@@ -244,8 +244,47 @@ def missed_values(dtname, mode, n):
     raise ValueError(mode)
 
 
+NPARGS = ["exp_bin_count_np_int64", "fixed_width_np_float32", "range_np_scalars", "keep_missed_np_bool", "adaptive_np_bool", "binning_ctor_np_scalars",
+          "h2_np_int_bin_width", "integer_np_range", "name_np_str", "shift_np_float32", "cylindrical_surface_default_radius"]
+
+
+def build_npargs(which):
+    """Histograms whose arguments were numpy scalars (they are kept in the binning / histogram and must still be written)."""
+    import physt.special_histograms as sp
+    from physt import h1, h2
+    from physt.binnings import FixedWidthBinning
+    from physt.histogram1d import Histogram1D
+
+    d = np.array([0.5, 1.5, 1.5, 3.25])
+    if which == "exp_bin_count_np_int64":
+        return h1(d, "exponential", bin_count=np.int64(4))
+    if which == "fixed_width_np_float32":
+        return h1(d, "fixed_width", bin_width=np.float32(0.5))
+    if which == "range_np_scalars":
+        return h1(d, 4, range=(np.float32(0.0), np.float64(4.0)))
+    if which == "keep_missed_np_bool":
+        return h1(d, np.array([0.0, 1.0, 2.0]), keep_missed=np.bool_(True))
+    if which == "adaptive_np_bool":
+        return h1(d, "fixed_width", bin_width=1.0, adaptive=np.bool_(True))
+    if which == "binning_ctor_np_scalars":
+        return Histogram1D(FixedWidthBinning(bin_width=np.float64(1.0), bin_count=np.int64(3), min=np.float32(0.0)), [1, 2, 0])
+    if which == "h2_np_int_bin_width":
+        return h2(d, d[::-1].copy(), "fixed_width", bin_width=np.int64(1))
+    if which == "integer_np_range":
+        return h1(d, "integer", range=(np.int64(0), np.int64(4)))
+    if which == "name_np_str":
+        return h1(d, np.array([0.0, 2.0, 4.0]), name=np.str_("n"), title=np.str_("t"))
+    if which == "shift_np_float32":
+        return h1(d, "fixed_width", bin_width=1.0, bin_shift=np.float32(0.25))
+    if which == "cylindrical_surface_default_radius":
+        return sp.cylindrical_surface(np.array([[1.0, 1.0, 0.5], [-1.0, 2.0, 1.5], [0.3, -2.0, 0.7]]), phi_bins=4, z_bins=np.array([0.0, 1.0, 2.0]))
+    raise HarnessError(which)
+
+
 def build_hist(case):
     """The original histogram of a `hist` case (or of a collection member)."""
+    if case.get("npargs"):
+        return build_npargs(case["npargs"])
     import physt.special_histograms as sp
     from physt.histogram1d import Histogram1D
     from physt.histogram_nd import Histogram2D, HistogramND
@@ -977,7 +1016,7 @@ def units(tier, seed):
         gc.append({"kind": "coll", "axis": a, "variants": variants, "max_members": 3})
     # cheap and diverse units first, then the groups interleaved: a run that hits its time budget
     # has still seen every kind of unit
-    us = [{"kind": "version"}, {"kind": "coll", "axis": "S_nasty_r", "variants": ["plain_i64", "f128"], "max_members": 2}]
+    us = [{"kind": "version"}, {"kind": "npargs"}, {"kind": "coll", "axis": "S_nasty_r", "variants": ["plain_i64", "f128"], "max_members": 2}]
     for klass in ["Histogram1D", "Histogram2D", "SphericalHistogram"]:
         us.append({"kind": "hist", "klass": klass, "axes_list": axis_tuples(klass_dim(klass), n), "profile": "kwargs", "dtypes": DTYPES})
     for row in itertools.zip_longest(gc, g2, gt, g1[0::3], g3, g1[1::3], g1[2::3]):
@@ -1019,6 +1058,14 @@ def _record(p, case, scratch, k, sample_at):
 def _run_unit(unit, ctx, p, scratch):
     kind = unit["kind"]
     k = 0
+    if kind == "npargs":
+        for which in NPARGS:
+            for path in ("text", "file"):
+                klass = "Histogram2D" if which.startswith("h2") else ("CylindricalSurfaceHistogram" if which.startswith("cyl") else "Histogram1D")
+                case = {"kind": "hist", "klass": klass, "npargs": which, "dtype": "int64", "path": path, "axes": [], "content": "plain", "meta": "none"}
+                _record(p, case, scratch, k, {3})
+                k += 1
+        return
     if kind == "hist":
         sample_at = {(37 + 101 * ctx.unit_index + 11 * ctx.seed) % 900}
         for axes in unit["axes_list"]:
